@@ -9,7 +9,11 @@ def decode(string):
 validate_encoded = decode
 
 def validate_decoded(alignment):
-  alignment.validate()
+  if isinstance(alignment, gfapy.CIGAR):
+    # (the default of CIGAR.validate is GFA1, which has more operations)
+    alignment.validate(version = "gfa2")
+  else:
+    alignment.validate()
 
 def unsafe_encode(obj):
   return str(obj)
@@ -18,7 +22,10 @@ def encode(obj):
   if isinstance(obj, str):
     validate_encoded(obj)
     return obj
-  elif isinstance(obj, gfapy.CIGAR) or isinstance(obj, gfapy.Trace):
+  elif isinstance(obj, gfapy.CIGAR):
+    obj.validate(version = "gfa2")
+    return str(obj)
+  elif isinstance(obj, gfapy.Trace):
     obj.validate()
     return str(obj)
   elif isinstance(obj, gfapy.Placeholder):
